@@ -29,6 +29,25 @@ SPEC = {
 
 KNOWN = "C18-comment-in-empty-block"
 
+_SAT = []
+
+
+def satisfied_constraints():
+    """Every spelling of a constraint the running compiler version satisfies: comparators, intersections (blank separated), unions,
+    hyphen ranges with and without the v prefix, x-ranges, caret and tilde ranges, bare versions."""
+    if not _SAT:
+        import importlib.metadata
+        import re
+        m = re.match(r"(\d+)\.(\d+)\.(\d+)", importlib.metadata.version("pyteal"))
+        M, mi, pa = (int(x) for x in m.groups())
+        v = "%d.%d.%d" % (M, mi, pa)
+        _SAT.extend([">=0.0.1", ">0.0.0", "<100.0.0", ">=0.20.0", "*", "0.0.1 - 100.0.0", "%s - 100.0.0" % v, "0.0.1 - %s" % v, "%s - %s" % (v, v),
+                     "v0.0.1 - v100.0.0", ">=0.0.1 <100.0.0", ">=0.0.1 %d.%d.x" % (M, mi), "%d.x" % M, "%d.%d.x" % (M, mi), "%d.%d.*" % (M, mi),
+                     "^%s" % v, "~%d.%d" % (M, mi), "~%s" % v, "=%s" % v, v, "%d.%d" % (M, mi), "<=%d" % (M + 1), ">=0.0.1 || <0.0.1", "<0.0.1 || 0.0.1 - 100.0.0",
+                     "<0.0.1 || >=%s" % v, "<=%s" % v, ">=%s" % v])
+    return _SAT
+
+
 HOSTILE = ["err", "int 0\nreturn", "x\nerr", "x\rerr", "a\r\nint 0", "l0:", "main_l1:", "b main_l0", "//", "// x", ";", "; err", "a;b", '"', '\\', '"x', "#pragma version 2",
            "\x0berr", "\x0cerr", "\x85err", " err", " int 1", "\x1cerr", "", " ", "\t", "retsub", "callsub f", "byte \"x\"", "é", "😀", "\x00", "a" * 300,
            "pop\npop", "return", "x\n", "\nx", "\n", "\n\n", "store 0", "load 255", "intcblock 1 2 3", "txn Sender // c", "label: err"]
@@ -159,7 +178,7 @@ def annotate(rng, recipe, bulk):
             e = rng.choice(found)
             inner = list(e)
             del e[:]
-            e.extend(["pragma", inner, rng.choice([">=0.0.1", ">0.0.0", "<100.0.0", ">=0.20.0", "*"])])
+            e.extend(["pragma", inner, rng.choice(satisfied_constraints())])
         elif kind == "nonce":
             if nonce is not None:
                 continue
